@@ -478,24 +478,140 @@ fn bg_parked(seed: u64) -> Vec<Fail> {
 
 /// unscheduled stress, one writer per key, per-key register check
 fn stress(seed: u64) -> Vec<Fail> {
+    stress_with(seed, false)
+}
+
+/// the same with a memtable that never rotates: thousands of entries in one skip list, many
+/// readers walking it while the writers link new nodes
+fn stress_mem(seed: u64) -> Vec<Fail> {
+    stress_with(seed, true)
+}
+
+/// One hot key that is overwritten all the time, many small keys sorting before it inserted in
+/// between (so that freshly linked skip-list nodes lie on the path to the hot key in a short,
+/// frequently rotated memtable), readers that get the hot key in a tight loop: a get that starts
+/// after put #i was acknowledged must see version >= i, never more than the last put started, and a
+/// reader never goes backwards.
+fn hot_key(seed: u64) -> Vec<Fail> {
     let mut rng = Prng::new(seed);
     let mut fails = vec![];
     let fs = SimFs::new();
-    let cfg = small_cfg(&mut rng);
+    let mut cfg = small_cfg(&mut rng);
+    cfg.memtable = *rng.pick(&[512usize, 1024, 2048, 4096, 16384]);
     let db = match open(&cfg, &fs) {
         Ok(d) => d,
         Err(f) => return vec![f],
     };
     sched::reset();
-    let nthreads = rng.range(3, 8) as usize;
-    let nkeys_per = 3usize;
+    let nreaders = rng.range(3, 7) as usize;
+    let fillers = rng.range(1, 6);
+    let rounds = rng.range(800, 2500);
+    let hot: Vec<u8> = rng.pick(&[b"z-hot".to_vec(), b"m".to_vec(), vec![0xff, 0xff]]).clone();
+    let acked = Arc::new(AtomicU64::new(0));
+    let started = Arc::new(AtomicU64::new(0));
+    let done = Arc::new(std::sync::atomic::AtomicBool::new(false));
+    let bad: Arc<parking_lot::Mutex<Vec<Fail>>> = Arc::new(parking_lot::Mutex::new(vec![]));
+    let mut hs = vec![];
+    for t in 0..nreaders {
+        let (db, acked, started, done, bad, hot) = (db.clone(), acked.clone(), started.clone(), done.clone(), bad.clone(), hot.clone());
+        hs.push(std::thread::spawn(move || {
+            let mut last = 0u64;
+            let mut n = 0u64;
+            while !done.load(Ordering::SeqCst) {
+                let floor = acked.load(Ordering::SeqCst);
+                let got = db.get(ReadOptions::default(), &hot);
+                let ceil = started.load(Ordering::SeqCst);
+                let v = match got {
+                    Ok(v) if v.len() >= 8 => u64::from_le_bytes(v[..8].try_into().unwrap()),
+                    Err(raindb::RainDBError::KeyNotFound) => 0,
+                    Ok(_) | Err(_) => {
+                        bad.lock().push(("c05:read-error".into(), format!("reader {t}: get of the hot key failed or returned a malformed value")));
+                        return n;
+                    }
+                };
+                n += 1;
+                if v < floor {
+                    bad.lock().push(("c05:stale-read-after-acknowledged-write".into(), format!("reader {t}: put #{floor} of the hot key had been acknowledged before this get started, the get returned version {v}{}", if v == 0 { " (KeyNotFound)" } else { "" })));
+                    return n;
+                }
+                if v > ceil {
+                    bad.lock().push(("c05:read-from-the-future".into(), format!("reader {t}: the get returned version {v} but only {ceil} puts had been started when it returned")));
+                    return n;
+                }
+                if v < last {
+                    bad.lock().push(("c05:reads-go-backwards".into(), format!("reader {t}: an earlier get saw version {last}, a later one version {v}")));
+                    return n;
+                }
+                last = v;
+            }
+            n
+        }));
+    }
+    let mut werr = None;
+    let mut fill_no = 0u64;
+    for i in 1..=rounds {
+        started.store(i, Ordering::SeqCst);
+        let mut v = i.to_le_bytes().to_vec();
+        v.resize(8 + (i % 24) as usize, b'h');
+        if let Err(e) = db.put(WriteOptions::default(), hot.clone(), v) {
+            werr = Some(format!("{e}"));
+            break;
+        }
+        acked.store(i, Ordering::SeqCst);
+        for _ in 0..fillers {
+            fill_no += 1;
+            if db.put(WriteOptions::default(), format!("a{:03}", fill_no % 150).into_bytes(), vec![b'f'; (fill_no % 17) as usize]).is_err() {
+                break;
+            }
+        }
+        if !bad.lock().is_empty() {
+            break;
+        }
+    }
+    done.store(true, Ordering::SeqCst);
+    let mut reads = 0u64;
+    for h in hs {
+        match h.join() {
+            Ok(n) => reads += n,
+            Err(_) => fails.push(("c09:panic".into(), "a reader thread panicked".into())),
+        }
+    }
+    if let Some(e) = werr {
+        fails.push(("c05:write-failed".into(), e));
+    }
+    if reads == 0 {
+        fails.push(("c05:no-reads".into(), "the readers never completed a get".into()));
+    }
+    fails.extend(bad.lock().drain(..));
+    if let Some(f) = close(db) {
+        fails.push(f);
+    }
+    fails
+}
+
+fn stress_with(seed: u64, big: bool) -> Vec<Fail> {
+    let mut rng = Prng::new(seed);
+    let mut fails = vec![];
+    let fs = SimFs::new();
+    let mut cfg = small_cfg(&mut rng);
+    if big {
+        cfg.memtable = 4 << 20;
+    }
+    let db = match open(&cfg, &fs) {
+        Ok(d) => d,
+        Err(f) => return vec![f],
+    };
+    sched::reset();
+    let nthreads = if big { rng.range(6, 10) as usize } else { rng.range(3, 8) as usize };
+    let nkeys_per = if big { 24usize } else { 3usize };
+    let write_pct: u64 = if big { 30 } else { 50 };
     let clock = Arc::new(AtomicU64::new(1));
     // per key: log of (start, end, version) of writes, filled by its writer; version 0 = absent
     type WLog = Vec<(u64, u64, u64)>;
     let wlogs: Arc<Vec<parking_lot::Mutex<WLog>>> = Arc::new((0..nthreads * nkeys_per).map(|_| parking_lot::Mutex::new(vec![])).collect());
     // reads: (key idx, start, end, observed version, thread)
     let reads: Arc<parking_lot::Mutex<Vec<(usize, u64, u64, u64, usize)>>> = Arc::new(parking_lot::Mutex::new(vec![]));
-    let nops = rng.range(150, 500);
+    let nops = if big { rng.range(1500, 4000) } else { rng.range(150, 500) };
     let mut hs = vec![];
     for t in 0..nthreads {
         let (db, clock, wlogs, reads) = (db.clone(), clock.clone(), wlogs.clone(), reads.clone());
@@ -504,7 +620,7 @@ fn stress(seed: u64) -> Vec<Fail> {
             let mut r = Prng::new(tseed);
             let mut version = vec![0u64; nkeys_per];
             for _ in 0..nops {
-                if r.chance(1, 2) {
+                if r.below(100) < write_pct {
                     // write one of my keys
                     let j = r.below(nkeys_per as u64) as usize;
                     let ki = t * nkeys_per + j;
@@ -603,7 +719,7 @@ pub fn rule() -> &'static str {
     "directed schedules forced through the scheduling hooks of the real code (a get parked after releasing the mutex / before reading tables while rotation, flush, compaction and file deletion complete; a multi-key batch writer parked before the WAL append, after it, after every single memtable insertion and after all of them while readers get, scan and take snapshots; a group-commit leader parked while followers queue; the background thread parked while building a table, before the manifest write, before deleting files and inside the compaction loop while clients read and write) over seeds that draw configuration, key kinds, placement of the key (memtable / table / both), fill volume and occurrence; plus unscheduled stress with 3-8 threads and a per-key register linearizability check. Non-trivial = the scenario reached its park point (or, for stress, ran to completion); distinct by (scenario, seed)."
 }
 
-pub fn run(tier: &str, seed: u64, replay: Option<&str>, shard: Option<ShardArgs>, only: Option<&str>, drv_path: &str) -> Report {
+pub fn run(tier: &str, seed: u64, replay: Option<&str>, shard: Option<ShardArgs>, only: Option<&str>, drv_path: &str, corpus_dir: &str) -> Report {
     crate::lsm::install_panic_hook();
     let _ = DRV_PATH.set(drv_path.to_string());
     sched::init();
@@ -614,7 +730,9 @@ pub fn run(tier: &str, seed: u64, replay: Option<&str>, shard: Option<ShardArgs>
         ("batch-parked", batch_parked, if thorough { 800 } else { 90 }),
         ("group-commit", group_commit, if thorough { 200 } else { 24 }),
         ("bg-parked", bg_parked, if thorough { 300 } else { 32 }),
-        ("stress", stress, if thorough { 200 } else { 16 }),
+        ("stress", stress, if thorough { 400 } else { 48 }),
+        ("stress-mem", stress_mem, if thorough { 100 } else { 8 }),
+        ("hot-key", hot_key, if thorough { 600 } else { 64 }),
     ];
     let run_one = |name: &str, f: fn(u64) -> Vec<Fail>, s: u64, rep: &mut Report| {
         let line = format!("c05 scenario={name} seed={s}");
@@ -641,7 +759,14 @@ pub fn run(tier: &str, seed: u64, replay: Option<&str>, shard: Option<ShardArgs>
         let get = |name: &str| line.split_whitespace().find_map(|t| t.strip_prefix(&format!("{name}="))).map(|s| s.to_string());
         if let (Some(n), Some(s)) = (get("scenario"), get("seed").and_then(|s| s.parse::<u64>().ok())) {
             if let Some((name, f, _)) = scenarios.iter().find(|x| x.0 == n) {
-                run_one(name, *f, s, &mut rep);
+                // unscheduled stress is not deterministic: repeat it
+                let reps = get("repeat").and_then(|s| s.parse::<u64>().ok()).unwrap_or(if name.starts_with("stress") || *name == "hot-key" { 12 } else { 1 });
+                for _ in 0..reps {
+                    run_one(name, *f, s, &mut rep);
+                    if !rep.failures.is_empty() {
+                        break;
+                    }
+                }
                 return rep;
             }
         }
@@ -652,6 +777,36 @@ pub fn run(tier: &str, seed: u64, replay: Option<&str>, shard: Option<ShardArgs>
     let (idx, cnt) = shard.as_ref().map_or((0, 1), |s| (s.index, s.count));
     let shard_opt = shard;
     let mut j = 0usize;
+    // minimized past failures first
+    let mut corpus_lines: Vec<String> = vec![];
+    if let Ok(rd) = std::fs::read_dir(corpus_dir) {
+        let mut paths: Vec<_> = rd.flatten().map(|e| e.path()).collect();
+        paths.sort();
+        for p in paths {
+            if let Ok(txt) = std::fs::read_to_string(&p) {
+                corpus_lines.extend(txt.lines().filter(|l| l.starts_with("c05 ")).map(|l| l.to_string()));
+            }
+        }
+    }
+    for line in corpus_lines {
+        let get = |name: &str| line.split_whitespace().find_map(|t| t.strip_prefix(&format!("{name}="))).map(|s| s.to_string());
+        let (Some(n), Some(s)) = (get("scenario"), get("seed").and_then(|s| s.parse::<u64>().ok())) else { continue };
+        let Some((name, f, _)) = scenarios.iter().find(|x| x.0 == n) else { continue };
+        if let Some(o) = only {
+            if !o.split(',').any(|x| x == *name) {
+                continue;
+            }
+        }
+        let reps = get("repeat").and_then(|s| s.parse::<u64>().ok()).unwrap_or(1);
+        for _ in 0..reps {
+            j += 1;
+            if j % cnt != idx {
+                continue;
+            }
+            rep.count("c05.corpus-cases");
+            run_one(name, *f, s, &mut rep);
+        }
+    }
     for (name, f, n) in scenarios.iter() {
         for _ in 0..*n {
             let s = rng.next() % 1_000_000_000;
